@@ -158,6 +158,18 @@ def run(tier, res, replay=None):
             rng, {'a1': t_}, [(1, 1, 'a1')], [flow_for(t_, 0.05)],
             gap_model='flow', bypass_fraction=0.05, coolant='sodium',
             ncell=3, cell_bounds=[0.0, 0.15, 0.45, 0.6]), None))
+    # a stagnant gap between two ducts filled with a coolant whose
+    # conductivity changes with temperature, heat crossing it: the walls on
+    # both sides are solved with the film of the gap as it is at that level
+    from harness.cases import fitted_type as _ft
+    DS = bundle_type(2, nd=2)
+    DS['bypass_gap_flow_fraction'] = 0.0
+    for gm in ('flow', 'none'):
+        lab.append((f'sodium-dd-stagnant-{gm}', make_core(
+            rng, {'a1': copy.deepcopy(DS)}, [(1, 1, 'a1')],
+            [flow_for(DS, 0.03)], gap_model=gm,
+            bypass_fraction=(0.05 if gm == 'flow' else 0.0),
+            coolant='sodium', ncell=2), None))
     cl = scenarios.core_lattice(rng, tier)
     lab += [(l, c, 40 if tier == 'quick' else None) for l, c in
             (cl[:3] if tier == 'quick' else cl)]
